@@ -25,7 +25,10 @@ RULE = ('helpers: every float/int array of length 0..N with distinct values x ev
 ASSUMPTIONS = ['diff(x, 0) is read as "no differencing" (the repository pins diff(x,0)==x in its own tests); only '
                'length and non-mutation are asserted for d=0',
                'int arrays are only shifted with int fill values',
-               'mixed slices (positional start, label stop) resolve per component: the stop is inclusive iff it is a label']
+               'mixed slices (positional start, label stop) resolve per component: the stop is inclusive iff it is a label',
+               'label slices with both endpoints given are compared with obj[name, a:b:s] for steps of either sign; a negative step with an omitted endpoint is '
+               'outside the specified domain (label indexing itself returns nothing there - C10 specifies positive steps only - while eval keeps the Python reading) '
+               'and is not compared']
 ANCHORS = [('fsic/functions.py', 'shift'), ('fsic/functions.py', 'lag'), ('fsic/functions.py', 'lead'), ('fsic/functions.py', 'diff'),
            ('fsic/functions.py', 'dlog'), ('fsic/core/containers.py', 'VectorContainer._resolve_expression_indexes'),
            ('fsic/core/containers.py', 'VectorContainer.eval')]
@@ -396,6 +399,34 @@ def check_eval(ctx):
             run_eval_case(ctx, case)
         # precedence: locals > variables > helpers; undefined names
         check_precedence(ctx, spec, n, origin, rng)
+        check_label_slices_vs_indexing(ctx, spec, n, origin)
+
+
+def check_label_slices_vs_indexing(ctx, spec, n, origin):
+    """'backticked period labels select exactly the positions that label indexing selects': every label slice with both
+    endpoints given, steps of either sign, against obj[name, a:b:s] of the same container (cells carry their positions)."""
+    from fsic.core import VectorContainer
+    if spec.text_labels[0] is None:
+        return
+    c = VectorContainer(spec.make())
+    c.add_variable('X', np.arange(n, dtype=float))
+    for i in range(n):
+        for j in range(n):
+            for step in (None, 1, 2, -1, -2, -3):
+                a, b = spec.labels[i][0], spec.labels[j][0]
+                text = f'X[`{spec.text_labels[i]}`:`{spec.text_labels[j]}`' + ('' if step is None else f':{step}') + ']'
+                case = {'kind': 'label-slice-vs-indexing', 'span_kind': spec.kind, 'n': n, 'origin': origin, 'text': text}
+                ctx.evaluation((spec.kind, n, text), nontrivial=True)
+                r = []
+                for f in (lambda: c.eval(text), lambda: c['X', a:b:step]):
+                    try:
+                        r.append(('ok', np.asarray(f()).tolist()))
+                    except Exception as e:
+                        r.append(('exc', type(e).__name__))
+                ctx.count('label_slices_vs_indexing')
+                if r[0] != r[1]:
+                    ctx.violation('eval-label-slice-vs-indexing', f'eval({text!r}) on {spec.kind} selects {r[0]}; label indexing obj["X", {a!r}:{b!r}:{step}] selects {r[1]}', case)
+                    return
 
 
 def check_precedence(ctx, spec, n, origin, rng):
@@ -501,7 +532,9 @@ def replay(ctx, case):
         run_eval_case(ctx, case)
     else:
         sp = [s for s in spans.catalogue(case.get('n', 5), origin=case.get('origin', 0)) if s.kind == case.get('span_kind')]
-        if sp:
+        if sp and case.get('kind') == 'label-slice-vs-indexing':
+            check_label_slices_vs_indexing(ctx, sp[0], case.get('n', 5), case.get('origin', 0))
+        elif sp:
             check_precedence(ctx, sp[0], case.get('n', 5), case.get('origin', 0), ctx.rng('replay'))
     ctx.evaluation(case, nontrivial=True)
 
